@@ -106,6 +106,21 @@ PROPS = {
             "a design containing an offending module may be refused forever; it must never be exported differently from fresh, nor report a circular dependency",
         ],
     },
+    "C09": {
+        "workloads": [("genp", "c09", 6000, 100000, None)],
+        "rule": (
+            "one case = 1-4 generators (param-class shapes: int+str; optional strings + float; nested param-class + enum + Scalar; Instantiable-valued + int; bodies: build, call another "
+            "generator, return another generator's module, raise on the first n runs) and 4-20 calls by keywords or by instance, with adversarial values (strings containing spaces and '=', "
+            "strings built from other parameters' k=v text, 'None' vs None, values that push the readable name past 128 characters, differently written equal numbers), direct calls of the "
+            "callee with the parameters an outer generator derives, junk allocation and exports; the whole call sequence is executed a second time in another pristine child in a different "
+            "order; non-trivial = >= 1 cache hit or >= 1 raising body; distinct = distinct (generator set, call sequence)"
+        ),
+        "assumptions": [
+            "model = dict keyed by (generator, parameter instance) under Python == of the real param-class instances",
+            "injectivity of the naming function is checked over the pairs of parameter values that occur in one run (workload coverage, not exhaustive)",
+            "pass-through generator bodies derive the callee's parameters injectively; NaN parameters and same-named Module-valued parameters are not generated",
+        ],
+    },
     "C12": {
         "workloads": [("order", "c12", 1800, 30000, None)],
         "post": "c12_layer2",
